@@ -3,6 +3,7 @@ package pstree
 import (
 	"fmt"
 	"testing"
+	"time"
 
 	"pgregory.net/rapid"
 	"verif/vk"
@@ -14,6 +15,7 @@ var opKindsModel = []string{
 	"get", "getI", "getAbsent", "clear", "clone", "clone", "switch", "switch",
 	"inorder", "after", "afterI", "afterI", "afterAbsent", "afterAbsent", "cursor", "cursorI", "cursorI",
 	"asc", "asc", "desc", "desc", "zig", "zig", "drain", "drain", "rm2", "rm2", "rm2", "bulkremove", "prune",
+	"seqKeep", "seqRange", "seqRange",
 }
 
 var opKindsDepth = []string{
@@ -38,7 +40,8 @@ func genOp(kinds []string) *rapid.Generator[Op] {
 			op.A = rapid.IntRange(0, 400).Draw(t, "a")
 		}
 		switch k {
-		case "after", "afterI", "afterAbsent", "drain", "deep", "cursor", "cursorI", "asc", "desc", "zig", "ascL", "descL", "shape":
+		case "after", "afterI", "afterAbsent", "drain", "deep", "cursor", "cursorI", "asc", "desc", "zig", "ascL", "descL", "shape",
+			"inorder", "seqKeep", "seqRange":
 			op.B = rapid.IntRange(0, 400).Draw(t, "b")
 		}
 		return op
@@ -117,6 +120,25 @@ func genTreeCase(depth bool) func(t *rapid.T) TreeCase {
 				}
 			}
 		}
+		if !depth && rapid.Bool().Draw(t, "kept") {
+			// a stored sequence that stays alive across runs of insertions and
+			// removals (root rebuilds), ranged in between and afterwards
+			insAt := func(lo int, op Op) int {
+				i := rapid.IntRange(min(lo, len(c.Ops)), len(c.Ops)).Draw(t, "kpos")
+				c.Ops = append(c.Ops[:i], append([]Op{op}, c.Ops[i:]...)...)
+				return i
+			}
+			p := insAt(0, Op{Kind: "seqKeep", A: rapid.IntRange(0, 400).Draw(t, "keepA"), B: rapid.IntRange(0, 2).Draw(t, "keepSlot")})
+			for range rapid.IntRange(1, 2).Draw(t, "keptRuns") {
+				// the drawn history in between changes the tree; half of the time a
+				// (short) run or a mass removal is put there as well
+				if rapid.Bool().Draw(t, "keptRunToo") {
+					kind := rapid.SampledFrom([]string{"asc", "desc", "zig", "drain", "drain", "bulkremove", "removeI", "add"}).Draw(t, "keptRun")
+					p = insAt(p+1, Op{Kind: kind, A: rapid.IntRange(0, 19).Draw(t, "keptRunA"), B: rapid.IntRange(0, 400).Draw(t, "keptRunB")})
+				}
+				p = insAt(p+1, Op{Kind: "seqRange", A: rapid.IntRange(0, 400).Draw(t, "rangeA"), B: rapid.IntRange(0, 2).Draw(t, "rangeSlot")})
+			}
+		}
 		return c
 	}
 }
@@ -134,6 +156,8 @@ func runC01(c TreeCase, o *vk.Obs) string {
 	o.ClassIf(r.drainEmpty > 0, "drained_to_empty")
 	o.ClassIf(r.clones > 0, "has_clone")
 	o.ClassIf(r.twoChild > 0, "two_child_removal")
+	o.ClassIf(r.reentrant > 0, "read_only_calls_inside_iteration")
+	o.ClassIf(r.keptStale > 0, "stored_sequence_ranged_after_change")
 	o.ClassIf(c.Beta == 0, "beta=0")
 	o.ClassIf(c.Beta == 1000, "beta=1000")
 	o.ClassIf(len(c.Init) > 0, "bulk_init")
@@ -245,3 +269,75 @@ func init() {
 }
 
 func TestReplay(t *testing.T) { vk.ReplayMain(t) }
+
+// preOrders are creation orders of balance factors for the trees made before
+// the tree of a case (LongTreeCase.Pre): the first case of every shard of leg
+// long - the first trees of a process - uses one of them.
+var preOrders = [][]int{{1000}, {999, 1000}, {0, 1000}, {1000, 1, 500}, {500}, {1, 0}, {999}, {1000, 1000, 2}}
+
+// TestC02Long: insertion-only trees of thousands to millions of keys in
+// patterned orders (see LongTreeCase).
+func TestC02Long(t *testing.T) {
+	h := vk.Start(t, "C02", "long")
+	slot := h.Slot()
+	tl := vk.NewTally()
+	var cases []LongTreeCase
+	// first in the process: small trees after trees of other factors
+	po := preOrders[(h.Shard+int(h.Seed))%len(preOrders)]
+	for _, b := range []int{0, 999, 250, 1} {
+		cases = append(cases, LongTreeCase{Beta: b, N: 300, Order: "asc", Pre: po})
+	}
+	var all []LongTreeCase
+	sizes := []int{5500, 20000, 1 << 16}
+	if h.Thorough() {
+		sizes = []int{5500, 20000, 1 << 16, 300000, 1 << 20}
+	}
+	rng := h.RNG("long")
+	for _, n := range sizes {
+		for _, order := range []string{"asc", "desc", "zig", "zag", "organ", "rand"} {
+			for _, b := range []int{0, 250, 999, 1 + rng.Intn(998)} {
+				if b > 700 && n > 6500 {
+					b = 700 - b%300 // loose factors make trees of linear depth: a long run would cost n^2
+				}
+				// strict factors rebuild large subtrees on nearly every insertion of a
+				// non-ascending run (measured: beta 0, 70 000 descending keys: 45 s)
+				if b < 50 && n > 8000 {
+					b += 50
+				}
+				if b < 250 && n > 100000 {
+					b = 250 + b%100
+				}
+				all = append(all, LongTreeCase{Beta: b, N: n + rng.Intn(1+n/8), Order: order, Seed: rng.Intn(1 << 30)})
+			}
+		}
+	}
+	for i, c := range all {
+		if i%max(h.NShards, 1) == h.Shard%max(h.NShards, 1) {
+			cases = append(cases, c)
+		}
+	}
+	for _, c := range cases {
+		if h.Failed() {
+			break
+		}
+		o := &vk.Obs{}
+		slot.Enter(c)
+		t0 := time.Now()
+		msg := vk.Guard(func() string { return runLongTree(c, o) })
+		slot.Leave()
+		if d := time.Since(t0); d > 2*time.Second {
+			t.Logf("slow long case %+v: %v", c, d)
+		}
+		if msg != "" {
+			p := h.Fail(c, msg)
+			t.Fatalf("VK-VIOLATION property=C02 leg=long replay=%s\n%s", p, msg)
+		}
+		tl.AddObs(o)
+		h.Sample(c, o.NT)
+	}
+	h.MergeTally(tl)
+}
+
+func init() {
+	vk.Register("C02", "long", runLongTree)
+}
